@@ -3170,7 +3170,13 @@ static void PrintDebSymbols_PNode(PTree Tree, void* pData) {
     TDebContext* DebContext = (TDebContext*)pData;
     int          l1;
 
-    if (!((Node->SymWert.AddrSpaceMask >> DebContext->Space) & 1)) {
+    /* section NOTHING: the symbols that belong to no address space at all */
+
+    if (DebContext->Space == SegNone) {
+        if (Node->SymWert.AddrSpaceMask) {
+            return;
+        }
+    } else if (!((Node->SymWert.AddrSpaceMask >> DebContext->Space) & 1)) {
         return;
     }
 
